@@ -103,8 +103,9 @@ def run(ctx):
                         return i
         return None
 
+    from csverif.q import inline as _inl
     st_kw = kwarg(resp, "status")
-    st_o = origin(f.node, st_kw)
+    st_o = _inl(f.node, st_kw)
     s_ok = isinstance(st_o, ast.Call) and dotted(st_o.func) == "int" and isinstance(st_o.args[0], ast.Call) and st_o.args[0].func.attr == "decode" and pos_of(dotted(st_o.args[0].func.value), resp) == 1
     r_ok = pos_of(dotted(kwarg(resp, "reason")), resp) == 2
     ctx.ob("R3", "AGREE", f, "HttpResponse(status, reason)", bool(s_ok and r_ok), f"status = int(<second token>.decode())={bool(s_ok)}; reason = third token={r_ok}", resp)
@@ -129,6 +130,8 @@ def run(ctx):
         uo = reaching_defs(ctx, f, dotted(uri_kw), req)
         u_ok = second and any(v is not None and src(v) == f"{res}.path" for _s, v in uo)
         po = origin(f.node, par_kw)
+        if isinstance(po, ast.Call) and po.args and isinstance(po.args[0], ast.Name):
+            po = ast.Call(func=po.func, args=[origin(f.node, po.args[0])] + po.args[1:], keywords=po.keywords)
         p_ok = second and isinstance(po, ast.Call) and dotted(po.func) == "dict" and isinstance(po.args[0], ast.Call) and dotted(po.args[0].func) in ("parse_qsl", "urllib.parse.parse_qsl") and src(po.args[0].args[0]) == f"{res}.query"
     ctx.ob("R3", "AGREE", f, "HttpRequest(method, uri, params)", bool(m_ok and u_ok and p_ok), f"method = first token={m_ok}; uri = urlparse(<second token>).path={u_ok}; params = dict(parse_qsl(<same>.query))={p_ok}", req)
     for kind, c in (("HttpResponse", resp), ("HttpRequest", req)):
